@@ -217,14 +217,17 @@ func runLife(seed, id int, fixed []lifeOp) lifeResult {
 			res.ExecsAfterWait = 1
 		}
 	}
-	for _, c := range cancels {
-		c()
-	}
+	// goroutine accounting while the contexts given to Start are still alive: everything the scheduler
+	// created must be gone after Stop + Wait on its own account
 	pollUntil(2*time.Second, func() bool { n, _ := quartzGoroutines(); return n == 0 })
 	res.Leaked, res.LeakSample = quartzGoroutines()
 	if res.Leaked == 0 {
 		res.LeakSample = ""
 	}
+	for _, c := range cancels {
+		c()
+	}
+	pollUntil(2*time.Second, func() bool { n, _ := quartzGoroutines(); return n == 0 })
 	res.BlockedStarted = blockedStarted.Load()
 	res.BlockedSawDone = blockedSawDone.Load()
 	return res
@@ -240,6 +243,9 @@ var lifeFixed = [][]lifeOp{
 	{{"start", "20ms"}, {"stop", "20ms"}},
 	{{"start", "20ms"}, {"cancel", "yield"}, {"start", "20ms"}, {"stopstart", "0"}, {"cancel", "0"}, {"start", "1ms"}},
 	{{"start", "0"}, {"schedule", "1ms"}, {"stopstart", "0"}, {"schedule", "20ms"}},
+	{{"start", "1ms"}, {"start", "0"}, {"cancel", "0"}},
+	{{"start", "1ms"}, {"start", "1ms"}, {"cancel", "1ms"}, {"start", "20ms"}},
+	{{"start", "20ms"}, {"stop", "1ms"}, {"start", "20ms"}, {"stop", "0"}, {"start", "20ms"}, {"stop", "0"}},
 }
 
 func cmdLife() {
